@@ -1,6 +1,7 @@
 package main
 
 import (
+	"encoding/json"
 	"fmt"
 	"strings"
 
@@ -23,6 +24,25 @@ func init() {
 		withCRC := append(append([]byte{}, bs...), byte(whole>>24), byte(whole>>16), byte(whole>>8), byte(whole))
 		res := astits.VerifComputeCRC32(withCRC)
 		return fmt.Sprintf("%08x %08x %08x", whole, st, res)
+	}
+	// the checksum is a function of the bytes, not of the buffer: one buffer overwritten in place with several messages
+	ops["crcseq"] = func(c *Case) string {
+		var msgs []string
+		if err := json.Unmarshal(c.Raw["msgs"], &msgs); err != nil {
+			panic(err)
+		}
+		var buf []byte
+		parts := []string{}
+		for _, h := range msgs {
+			b := unhex(h)
+			if cap(buf) < len(b) {
+				buf = make([]byte, len(b))
+			}
+			buf = buf[:len(b)]
+			copy(buf, b)
+			parts = append(parts, fmt.Sprintf("%08x", astits.VerifComputeCRC32(buf)))
+		}
+		return strings.Join(parts, " ")
 	}
 	ops["crcstep"] = func(c *Case) string {
 		return fmt.Sprintf("%08x", astits.VerifUpdateCRC32(uint32(c.num("state")), []byte{byte(c.num("byte"))}))
